@@ -35,7 +35,7 @@ BOUNDS = (
     "and sticky_default_ttl: presence in all 16x2 combinations with fixed values, and one value at a time = any int "
     "0..%d; flags storage, upload provider, compression on/off, sticky, echo headers, proof-required, "
     "introspection: all 256 combinations; request method: any of 6 x success flag on two configurations; thorough "
-    "tier: the full 2048-configuration product with fixed values" % pick(10**6, 10**7)
+    "tier: the full 2048-configuration product with fixed values" % pick(10**5, 10**7)
 )
 OUTSIDE = (
     "interaction between the groups above in the quick tier (limits x features x method are decided group by group, "
@@ -395,7 +395,7 @@ def limit_headers_present_iff_configured(has_req: bool, has_resp: bool, has_ext:
                   300, False, provider, True, False, False, False, False, 0, True)  # fmt: skip
 
 
-_NMAX = pick(10**6, 10**7)
+_NMAX = pick(10**5, 10**7)
 
 
 def _args_one_value(which: int, n: int) -> dict:
